@@ -12,7 +12,7 @@ P = {
     "coq_targets": ["Properties/C13.vo", "Run/Eval_C13.vo"],
     "theorems_module": "Properties.C13",
     "theorems": ["C13_same_lookup", "C13_same_view", "C13_same_decision", "C13_same_upstream_headers",
-                 "C13_three_entry_points_agree", "C13_fixed_F1_captures_unguarded", "C13_decision_proxy_same_execution",
+                 "C13_three_entry_points_agree", "C13_fixed_F1_F4_unguarded", "C13_fixed_F4_slash_check_agrees", "C13_decision_proxy_same_execution",
                  "C13_header_lookup_agrees", "C13_cookie_readers_agree",
                  "C13_F1_refuted", "C13_F1_refuted_decision", "C13_F2_refuted", "C13_F3_refuted", "C13_F4_refuted",
                  "C13_F4_refuted_view", "C13_F5_refuted", "C13_F5_refuted_handover", "C13_F6_refuted", "C13_F7_refuted",
